@@ -4,6 +4,7 @@ import (
 	"fmt"
 	"go/token"
 	"go/types"
+	"math/big"
 	"sort"
 	"strings"
 
@@ -326,7 +327,35 @@ func c14Timestamp(p *ana.Prog, r *ana.Result) {
 	} else {
 		r.Violate("C14.fixed", "net/csptp.TimestampFromTime/TimeFromTimestamp", "seconds-48bit", p.Pos(enc.Pos()), fmt.Sprintf("48-bit seconds packing disagrees: encoder shifts %v, decoder shifts %v (expected 40,32,24,16,8,0)", encSh, decSh))
 	}
-	// range panics s < 0 and s > 2^48-1
+	// range: on every path that returns, the packed second count lies in [0, 2^48-1]
+	var unix ssa.Value
+	nUnix := 0
+	ana.Instrs(enc, func(in ssa.Instruction) {
+		if c, ok := in.(*ssa.Call); ok && ana.CalleeName(c.Common()) == "(time.Time).Unix" {
+			unix = c
+			nUnix++
+		}
+	})
+	paths, err := tvPaths(enc)
+	if nUnix == 1 && err == nil && len(paths) > 0 {
+		okAll := true
+		worst := ""
+		max48 := new(big.Int).Sub(new(big.Int).Lsh(big.NewInt(1), 48), big.NewInt(1))
+		for _, pt := range paths {
+			v, ok := pt.st.ivOf(unix, 0)
+			if !ok || v.lo.Sign() < 0 || v.hi.Cmp(max48) > 0 {
+				okAll = false
+				worst = v.String()
+			}
+		}
+		if okAll {
+			r.Ok("C14.fixed", ana.FuncName(enc), "range-guards", p.Pos(enc.Pos()), fmt.Sprintf("on each of the %d returning paths the second count is within [0, 2^48-1] (values outside are rejected before packing)", len(paths)))
+		} else {
+			r.Violate("C14.fixed", ana.FuncName(enc), "range-guards", p.Pos(enc.Pos()), "TimestampFromTime can pack a second count in "+worst+", outside [0, 2^48-1] (silent truncation)")
+		}
+		return
+	}
+	// fallback (loops): the two range panics s < 0 and s > 2^48-1
 	nPanic := 0
 	ana.Instrs(enc, func(in ssa.Instruction) {
 		if _, ok := in.(*ssa.Panic); ok {
@@ -339,14 +368,18 @@ func c14Timestamp(p *ana.Prog, r *ana.Result) {
 		if !isCmp || !pos {
 			return
 		}
-		k, okk := ana.ConstInt(c.Y)
+		x, y, op := c.X, c.Y, c.Op
+		if _, isK := x.(*ssa.Const); isK {
+			x, y, op = y, x, ana.SwapOp(op)
+		}
+		k, okk := ana.ConstInt(y)
 		if !okk {
 			return
 		}
-		if c.Op == token.LSS && k == 0 {
+		if (op == token.LSS && k == 0) || (op == token.LEQ && k == -1) {
 			lo = true
 		}
-		if c.Op == token.GTR && k == 1<<48-1 {
+		if (op == token.GTR && k == 1<<48-1) || (op == token.GEQ && k == 1<<48) {
 			hi = true
 		}
 	})
